@@ -16,7 +16,7 @@ CONSTANTS
   MaxSteps = 3
 SPECIFICATION Spec
 VIEW View
-INVARIANTS ModelTypeOK NoUninitRead
-PROPERTIES AllSteps
+INVARIANTS ModelTypeOK NoUninitRead OwnInv
+PROPERTIES AllSteps Refines
 ACTION_CONSTRAINT Emit
 CHECK_DEADLOCK FALSE
